@@ -94,7 +94,7 @@ def in_plain_domain(octets: bytes, abort: bool) -> bool:
 
 def corrupt(rng, octets: bytes) -> tuple[bytes, str]:
     """A damaged variant of a well-formed frame; returns (octets, class)."""
-    kind = rng.choice(("bitflip", "truncate", "truncate_after_hcs", "extra", "wrong_length", "swap_fcs", "header_only_cut"))
+    kind = rng.choice(("bitflip", "truncate", "truncate_after_hcs", "extra", "wrong_length", "swap_fcs", "header_only_cut", "invert_fcs", "invert_hcs_and_fcs", "fcs_plus_one"))
     b = bytearray(octets)
     if kind == "bitflip":
         i = rng.randrange(len(b))
@@ -119,6 +119,24 @@ def corrupt(rng, octets: bytes) -> tuple[bytes, str]:
             out += f.info
             out += fcs16.trailer(out)
         b = bytearray(out)
+    elif kind == "invert_fcs":
+        # the check sequence of a sender that forgot the final one's complement
+        b[-2] ^= 0xFF
+        b[-1] ^= 0xFF
+    elif kind == "invert_hcs_and_fcs":
+        f = hdlc_ref.parse(octets)
+        n_h = 2 + len(f.destination) + len(f.source) + 1
+        if f.info:
+            b[n_h] ^= 0xFF
+            b[n_h + 1] ^= 0xFF
+            tr = fcs16.trailer(bytes(b[:-2]))
+            b[-2], b[-1] = tr[0] ^ 0xFF, tr[1] ^ 0xFF
+        else:
+            b[-2] ^= 0xFF
+            b[-1] ^= 0xFF
+    elif kind == "fcs_plus_one":
+        v = ((b[-2] | (b[-1] << 8)) + 1) & 0xFFFF
+        b[-2], b[-1] = v & 0xFF, v >> 8
     elif kind == "swap_fcs":
         b[-1], b[-2] = b[-2], b[-1]
         if b[-1] == b[-2]:
@@ -209,3 +227,11 @@ def long_run(rng) -> tuple[bytes, str]:
     n = rng.choice((950, 1100, 1300)) if v % 2 == 0 else rng.choice((950, 1100, 2100, 3000, 9000))
     head = rng.choice((b"", b"\x7e", b"\x7e\xa0\x00", b"\x7e\xa7\xff", b"/"))
     return head + bytes((v,)) * n + rng.choice((b"", b"\x7e", b"\n")), f"long_run_{v:02x}"
+
+
+FILL_LENGTHS = (1, 1, 1, 2, 2, 3, 6, 7, 8, 15, 16, 17, 31, 32, 33, 34, 63, 64, 65, 66, 99, 100, 127, 128, 129, 255, 256, 257, 1000)
+
+
+def fill(rng) -> bytes:
+    """Inter-frame time fill: a run of flags whose length is drawn from small values and from the neighbourhood of powers of two."""
+    return b"\x7e" * rng.choice(FILL_LENGTHS)
